@@ -99,15 +99,81 @@ class MemFS:
     def isfile(self, a: str) -> bool:
         return a in self.files
 
+    # low-level descriptors: os.open(name, flags, mode) / os.fdopen(fd, 'w') - no implicit truncation
+    O_RDONLY, O_WRONLY, O_RDWR, O_CREAT, O_EXCL, O_TRUNC, O_APPEND = 0, 1, 2, 64, 128, 512, 1024
+
+    def os_open(self, name: str, flags: int, mode: int = 0o777) -> int:
+        self._op("os.open " + name)
+        if name not in self.files:
+            if not (flags & self.O_CREAT):
+                raise FileNotFoundError(name)
+            self.files[name] = ""
+        elif flags & self.O_EXCL:
+            raise FileExistsError(name)
+        if flags & self.O_TRUNC:
+            self.files[name] = ""
+        self.fds = dict(getattr(self, "fds", {}))
+        fd = 3 + len(self.fds)
+        self.fds[fd] = (name, bool(flags & self.O_APPEND))
+        return fd
+
+    def fdopen(self, fd: int, mode: str = "r", *a, **k):
+        fs = self
+        name, append = self.fds[fd]
+
+        class FD:
+            def __init__(s):
+                s.text = ""
+                s.closed = False
+
+            def write(s, t):
+                fs._op("write " + name)
+                s.text = s.text + t
+                if fs.eager:
+                    s._commit()
+                return len(t)
+
+            def _commit(s):
+                target = name if name in fs.files else fs.renamed.get(name, name)
+                old = fs.files.get(target, "")
+                # writing from offset 0 over whatever is there: the tail of a longer old content survives
+                fs.files[target] = (old + s.text) if append else (s.text + old[len(s.text):])
+
+            def flush(s):
+                s._commit()
+
+            def close(s):
+                if not s.closed:
+                    fs._op("close " + name)
+                    s._commit()
+                    s.closed = True
+
+            def __enter__(s):
+                return s
+
+            def __exit__(s, *a):
+                if a and a[0] is not None and issubclass(a[0], Crash):
+                    return False
+                s.close()
+                return False
+        return FD()
+
     def shims(self):
         fs = self
 
         class FakePath:
             isfile = staticmethod(fs.isfile)
+            exists = staticmethod(fs.isfile)
 
         class FakeOs:
             replace = staticmethod(fs.replace)
+            rename = staticmethod(fs.replace)
             remove = staticmethod(fs.remove)
+            unlink = staticmethod(fs.remove)
+            open = staticmethod(fs.os_open)
+            fdopen = staticmethod(fs.fdopen)
+            fsync = staticmethod(lambda fd: None)
+            O_RDONLY, O_WRONLY, O_RDWR, O_CREAT, O_EXCL, O_TRUNC, O_APPEND = 0, 1, 2, 64, 128, 512, 1024
             path = FakePath
         return fs.open, FakeOs
 
